@@ -83,7 +83,7 @@ func genC05(t *rapid.T) *C05Case {
 		np := rapid.IntRange(0, 8).Draw(t, "peerOps")
 		for i := 0; i < np; i++ {
 			ss.Peer = append(ss.Peer, PeerOp{At: rapid.Int64Range(0, int64(c.N)*3e9).Draw(t, "peerAt"),
-				Kind: rapid.SampledFrom([]string{"testreq", "testreq", "heartbeat", "invalid", "app", "resend", "resend-open"}).Draw(t, "peerKind")})
+				Kind: rapid.SampledFrom([]string{"testreq", "testreq", "heartbeat", "invalid", "invalid-seq", "no-seq", "app", "resend", "resend-open"}).Draw(t, "peerKind")})
 		}
 		sort.SliceStable(ss.Peer, func(i, j int) bool { return ss.Peer[i].At < ss.Peer[j].At })
 		ss.GapAfter = rapid.SampledFrom([]int64{-1, 0, 1e6, int64(c.N) * 5e8}).Draw(t, "gapAfter")
@@ -254,6 +254,11 @@ func checkC05(c *C05Case, rec *evid.Rec) (vs []pbt.Violation) {
 							m = &rig.InMsg{Type: rig.TResendRequest, Seq: next(), Fields: []rig.Tok{rig.F(rig.TagBeginSeqNo, "1"), rig.F(rig.TagEndSeqNo, "0")}}
 						case "invalid":
 							m = &rig.InMsg{Type: rig.THeartbeat, Seq: next(), Damage: "checksum", DamageBy: k}
+						case "invalid-seq":
+							// well framed, its MsgSeqNum is not a number: the Reject it gets is a numbered message like any other
+							m = &rig.InMsg{Type: rig.THeartbeat, Seq: []string{"7x", "abc", "1.0", " 4"}[k%4]}
+						case "no-seq":
+							m = &rig.InMsg{Type: rig.TTestRequest, NoSeq: true, Fields: []rig.Tok{rig.F(rig.TagTestReqID, fmt.Sprint("p", k))}}
 						default:
 							m = &rig.InMsg{Type: "D", Seq: next(), Fields: []rig.Tok{rig.F("11", "x")}}
 						}
